@@ -62,7 +62,17 @@ inductive SlotRel (E : Env) (uns : Bool) (t ty : Ty) : Option UConv → Prop
   /-- … or differs from it: the composed closure -/
   | composed {mid : Ty} {p q : Plan} : structColl ty mid t = true → mid.equals t = false →
       getConv E ty mid uns = some p → getConv E mid t uns = some q →
-      SlotRel E uns t ty (some (.thenOrig (some (.plan p)) (.plan q)))
+      SlotRel E uns t ty (some (.andThen (some (.plan p)) (.plan q)))
+
+/-- the target types of the steps a returned conversion is made of: the `out` of every
+`getConversion(in, out)` closure at its top (one for a slot filled the direct way, two
+for a composed closure) -/
+def stepTargets : UConv → List Ty
+  | .plan (.wrap out _) => [out]
+  | .plan _ => []
+  | .constDyn => []
+  | .andThen (some f) s => stepTargets f ++ stepTargets s
+  | .andThen none s => stepTargets s
 
 /-- … for the whole slice -/
 def SlotsRel (E : Env) (uns : Bool) (t : Ty) (types : List Ty) (cs : Convs) : Prop :=
